@@ -316,10 +316,10 @@ NextCtx ==
   \/ AddRef
 
 NextStream ==
-  \/ \E act \in {"none", "reply", "reply2"}, hret \in {0, -3}, d \in MsgDom \ {<<>>} :
+  \/ \E act \in {"none", "reply", "reply2"}, hret \in {0, -3}, d \in MsgDom :
         \/ StreamRequest(IdBytes(max), <<4, 58, 103>>, act, d, hret)
         \/ StreamRequest(Zeros(max), <<9>>, act, d, hret)
-  \/ \E d \in MsgDom \ {<<>>} : StreamLate(d)
+  \/ \E d \in MsgDom : StreamLate(d)
   \/ StreamAnswer(Mark(IdBytes(max)), <<1, 0>>)
 
 Next == NextId \/ NextCtx \/ NextStream
